@@ -22,17 +22,17 @@ def config(kind: str, limit: int) -> str:
             f"peer:peer3.x,{REALM},0,0,30,1,0,-,-,-,-;app:4,1,0,{kind},{limit},0+1+2,-")
 
 
-def probe_events(conn: int, base: int, limit: int, kind: str, ids: int) -> list[str]:
+def probe_events(conn: int, base: int, limit: int, kind: str, ids: int, peer: str = "peer3.x") -> list[str]:
     """Reconnect-and-serve probe: a new peer's handshake, a burst of limit+2
     requests, then limit+2 requests one after the other."""
     n = limit + 2
-    evs = ["outcome 0 answer", "acc", f"rx {conn} " + nodegen.cer("peer3.x", "4", ids, ids + 1)]
-    burst = [nodegen.ccr(ids + 10 + 2 * i, ids + 11 + 2 * i, "peer3.x") for i in range(n)]
+    evs = ["outcome 0 answer", "acc", f"rx {conn} " + nodegen.cer(peer, "4", ids, ids + 1)]
+    burst = [nodegen.ccr(ids + 10 + 2 * i, ids + 11 + 2 * i, peer) for i in range(n)]
     evs.append(f"rx {conn} " + " ".join(burst))
     for i in range(n):
         evs.append("handler 0" if kind == "t" else f"ans 0 {base + i} 2001")
     for i in range(n):
-        evs.append(f"rx {conn} " + nodegen.ccr(ids + 40 + 2 * i, ids + 41 + 2 * i, "peer3.x"))
+        evs.append(f"rx {conn} " + nodegen.ccr(ids + 40 + 2 * i, ids + 41 + 2 * i, peer))
         evs.append("handler 0" if kind == "t" else f"ans 0 {base + n + i} 2001")
     return evs
 
@@ -59,10 +59,10 @@ def probe_view(obs: Obs) -> list[str]:
 _fresh_cache: dict = {}
 
 
-def fresh_view(cfg: str, limit: int, kind: str, ids: int) -> list[str]:
-    key = (cfg, ids)
+def fresh_view(cfg: str, limit: int, kind: str, ids: int, peer: str = "peer3.x") -> list[str]:
+    key = (cfg, ids, peer)
     if key not in _fresh_cache:
-        line = cfg + " | start fail | mark probe:1 | " + " | ".join(probe_events(1, 0, limit, kind, ids))
+        line = cfg + " | start fail | mark probe:1 | " + " | ".join(probe_events(1, 0, limit, kind, ids, peer))
         _fresh_cache[key] = probe_view(Obs(nodecheck.run_real(line)))
         if len(_fresh_cache) > 2000:
             _fresh_cache.pop(next(iter(_fresh_cache)))
@@ -79,10 +79,12 @@ def oracle(line: str, obs: Obs):
     mark = next((ev for ev, _ in obs.blocks if ev.startswith("mark probe")), None)
     if mark is None:
         return fails
-    _, conn, base, limit, kind, ids = mark.split(":")
+    f = mark.split(":")
+    _, conn, base, limit, kind, ids = f[:6]
+    peer = f[6] if len(f) > 6 else "peer3.x"
     cfg = line.split("|")[0].strip()
     got = probe_view(obs)
-    want = fresh_view(cfg, int(limit), kind, int(ids))
+    want = fresh_view(cfg, int(limit), kind, int(ids), peer)
     if got != want:
         i = next((k for k, (a, b) in enumerate(zip(got, want)) if a != b), min(len(got), len(want)))
         fails.append({"what": "a peer connecting after the faults is not served as on a fresh node",
@@ -107,6 +109,7 @@ class Builder:
         self.sim = sim.Sim(self.cfg[5:].strip())
         self.evs: list[str] = []
         self.id = 500
+        self.open1: set = set()       # connections of peer1 the scenario has opened and not cut
         self.ev("start " + plan)
 
     def close(self):
@@ -139,6 +142,7 @@ class Builder:
         return False
 
     def fault(self, c: int, whole: bool = True):
+        self.open1.discard(c)
         k = self.rng.choice(["eof", "reset", "soft-eof", "wr", "wr-soft"] if whole else ["eof", "reset", "soft-eof"])
         if k == "eof":
             self.ev(f"eof {c}")
@@ -158,6 +162,8 @@ class Builder:
     def inbound(self, cut: str = "none", host="peer1.x"):
         c = self.nconn()
         self.ev("acc")
+        if host == "peer1.x":
+            self.open1.add(c)
         whole = self.partial(c, nodegen.cer(host, "4", self.n(), self.n()), cut)
         return c, whole
 
@@ -218,6 +224,7 @@ class Builder:
             whole = self.partial(c, nodegen.dpr(self.n(), self.n(), host), self.rng.choice(CUTS))
             if whole:
                 self.ev(f"eof {c}")
+                self.open1.discard(c)
             else:
                 self.fault(c, False)
         else:
@@ -226,7 +233,7 @@ class Builder:
     def requests(self, c: int, host: str):
         rng = self.rng
         nreq = rng.randint(1, self.limit + 2)
-        outcome = rng.choice(["answer", "none", "raise", "slow"])
+        outcome = rng.choice(["answer", "none", "raise", "raise0", "slow"])
         self.ev(f"outcome 0 {outcome if outcome != 'slow' else 'answer'}")
         queued = rng.random() < 0.4
         if queued:
@@ -270,8 +277,10 @@ class Builder:
         conn = self.nconn()
         base = len([1 for i, _ in self.sim.app_requests if i == 0])
         ids = self.n() + 100
-        self.evs.append(f"mark probe:{conn}:{base}:{self.limit}:{self.kind}:{ids}")
-        self.evs += probe_events(conn, base, self.limit, self.kind, ids)
+        # the peer whose connections were all cut comes back itself, otherwise another peer connects
+        peer = "peer1.x" if not self.open1 and self.rng.random() < 0.7 else "peer3.x"
+        self.evs.append(f"mark probe:{conn}:{base}:{self.limit}:{self.kind}:{ids}:{peer}")
+        self.evs += probe_events(conn, base, self.limit, self.kind, ids, peer)
 
     def line(self) -> str:
         return self.cfg + " | " + " | ".join(self.evs)
